@@ -398,7 +398,7 @@ pub fn case_for(seed: u64, tier: Tier, run: u64) -> Case {
         kn.max_gates = tier.pick(4, 16);
         kn.max_ops = 10;
     }
-    let base = if run < 24 { c01::case_for(seed, tier, run) } else { gen_session_case(&mut rng, curve, &kn) };
+    let base = if run < 3 * gen::scripted(Curve::Secq).len() as u64 { c01::case_for(seed, tier, run) } else { gen_session_case(&mut rng, curve, &kn) };
     let mode = match below(&mut rng, 8) {
         0 => RngMode::StuckZero,
         1 => RngMode::StuckPattern,
